@@ -543,12 +543,21 @@ func c08sub(c *an.Ctx) {
 	}
 	// edges on which "exiting" is known: true edges of Exiting() tests combined with ephemeral
 	var exitingTrue []an.Edge
-	for _, ec := range an.CallsTo(fn, chExiting, tExiting) {
-		for _, t := range an.BoolTests(ec.Value()) {
-			exitingTrue = append(exitingTrue, t.True)
+	kinds := map[*ssa.Function]bool{}
+	exitingTrue = edgesWhere(fn, func(f an.Fact) bool {
+		call, ok := f.V.(*ssa.Call)
+		if !ok || !f.True {
+			return false
 		}
-	}
-	c.Check(len(exitingTrue) >= 2, fn, "tests channel and topic exiting", fn.Pos(), "", "SUB no longer tests both the channel and the topic for Exiting() after AddClient")
+		for _, ex := range []*ssa.Function{chExiting, tExiting} {
+			if an.IsCallTo(call, ex) {
+				kinds[ex] = true
+				return true
+			}
+		}
+		return false
+	})
+	c.Check(len(kinds) == 2, fn, "tests channel and topic exiting", fn.Pos(), "", "SUB no longer tests both the channel and the topic for Exiting() after AddClient")
 	for _, ac := range adds {
 		succ, _ := an.ErrEdges(ac.Value())
 		// (a) from an exiting-true edge, commit (state store / SubEventChan send) is unreachable without passing RemoveClient
